@@ -98,11 +98,14 @@ def digests_equal(a, b, rtol=1e-9):
 
 
 def run_traced(cfg: dict, n_steps: int, schedule: Schedule | None = None, env: tracer.TableEnv | None = None,
-               ref_digests=None, split=None, db_path="sqlite://", events_meta=None, catch_crash=False):
+               ref_digests=None, split=None, db_path="sqlite://", events_meta=None, catch_crash=False,
+               after_build=None):
     """Build the real scenario, run it with propagateTo, return (events, per-step digests, app)."""
     if env is not None:
         tracer.install_table_env()
     app = su.build(cfg, db_path=db_path)
+    if after_build is not None:
+        after_build(app)
     sched.set_chooser(schedule)
     rec = tracer.start(app, env, events_meta)
     digests = []
@@ -177,7 +180,8 @@ def _tla_set(xs):
     return "{" + ", ".join(json.dumps(x) for x in xs) + "}"
 
 
-FLAGS = ["ResetChangesPerJob", "MissListSquared", "KeepMissedAcrossSteps", "PriorityToAllEngines", "PruneKeepsEqual"]
+FLAGS = ["ResetChangesPerJob", "MissListSquared", "KeepMissedAcrossSteps", "PriorityToAllEngines", "PruneKeepsEqual",
+         "PartialCommit"]
 
 
 def trace_module(g: dict) -> tuple[str, str]:
@@ -222,7 +226,7 @@ CONSTANTS
   Events <- cEvents
   NSteps = {g['nsteps']}
   Dt = {g['dt']}
-  OutEvery = {g['out_every']}
+  OutDt = {g.get('out_dt', g['out_every'] * g['dt'])}
   WithEstimation = {B(g['estimation'])}
   WithSerendipity = {B(g['serendipity'])}
   WithFaults = {B(g.get('faults', True))}
